@@ -3,7 +3,7 @@
   sparse/numba_backend/_common.py and of the `_dot` dispatch.  Core Lean only (linked into svdriver).
 
   Conventions.  Elements are `Int`.  A 1-d NumPy array is a `List`; `x[lo:hi]` is `slice x lo hi`
-  (NumPy clamps, so does `drop/take`).  A dense 2-d operand is a list of rows (`Spec.Dense`), read
+  (NumPy clamps, so does `drop/take`).  A dense 2-d operand is a list of rows (`Spec.DenseM`), read
   with `dget`.  A pre-sized output array that the kernel fills at a running position `nnz` is the
   list of the values written, in writing order; the number of slots the kernel *allocated* (its nnz
   pre-count) is returned next to it wherever the two can differ — "pre-count = entries written" is
@@ -65,26 +65,26 @@ def axpy (v : Int) (f : Nat → Int) : Nat → List Int → List Int
 /-! ### `_dot_csr_ndarray` -/
 
 /-- the `k` loop of one output row: starts from the zero row -/
-def dotCsrNdRow (nCol : Nat) (arow : List (Nat × Int)) (b : Dense) : List Int :=
+def dotCsrNdRow (nCol : Nat) (arow : List (Nat × Int)) (b : DenseM) : List Int :=
   arow.foldl (fun val e => axpy e.2 (fun j => dget b e.1 j) 0 val) (List.replicate nCol 0)
 
 /-- `_dot_csr_ndarray(out_shape, a_data, a_indices, a_indptr, b)` -/
-def dotCsrNd (nRow nCol : Nat) (A : CSR) (b : Dense) : Dense :=
+def dotCsrNd (nRow nCol : Nat) (A : CSR) (b : DenseM) : DenseM :=
   (List.range nRow).map fun i => dotCsrNdRow nCol (A.row i) b
 
 /-! ### `_csr_ndarray_count_nnz`, `_dot_csr_ndarray_sparse` -/
 
 /-- `for k in cur_row: if b[k, j] != 0: nnz += 1; break` — does column `j` count? -/
-def csrNdHit (idx : List Nat) (b : Dense) (j : Nat) : Bool := idx.any fun k => dget b k j != 0
+def csrNdHit (idx : List Nat) (b : DenseM) (j : Nat) : Bool := idx.any fun k => dget b k j != 0
 
 /-- returns `(nnz, indptr)`; `indptr[0]` is written by the caller -/
-def csrNdCountNnz (nRow nCol : Nat) (A : CSR) (b : Dense) : Nat × List Nat :=
+def csrNdCountNnz (nRow nCol : Nat) (A : CSR) (b : DenseM) : Nat × List Nat :=
   (List.range nRow).foldl (fun (st : Nat × List Nat) i =>
     let nnz := (List.range nCol).foldl (fun n j => if csrNdHit (A.rowIdx i) b j then n + 1 else n) st.1
     (nnz, st.2 ++ [nnz])) (0, [0])
 
 /-- one output row: the written `(j, val)` in order -/
-def dotCsrNdSparseRow (nCol : Nat) (arow : List (Nat × Int)) (b : Dense) : List (Nat × Int) :=
+def dotCsrNdSparseRow (nCol : Nat) (arow : List (Nat × Int)) (b : DenseM) : List (Nat × Int) :=
   (List.range nCol).filterMap fun j =>
     let st := arow.foldl (fun (st : Int × Bool) e =>
       (st.1 + e.2 * dget b e.1 j, st.2 || (dget b e.1 j != 0))) (0, false)
@@ -98,7 +98,7 @@ structure SparseOut where
   deriving Repr
 
 /-- `_dot_csr_ndarray_sparse(out_shape, a_data, a_indices, a_indptr, b)` -/
-def dotCsrNdSparse (nRow nCol : Nat) (A : CSR) (b : Dense) : SparseOut :=
+def dotCsrNdSparse (nRow nCol : Nat) (A : CSR) (b : DenseM) : SparseOut :=
   let c := csrNdCountNnz nRow nCol A b
   let out := (List.range nRow).flatMap fun i => dotCsrNdSparseRow nCol (A.row i) b
   { data := out.map (·.2), indices := out.map (·.1), indptr := c.2, alloc := c.1 }
@@ -106,7 +106,7 @@ def dotCsrNdSparse (nRow nCol : Nat) (A : CSR) (b : Dense) : SparseOut :=
 /-! ### `_dot_csc_ndarray` -/
 
 /-- `_dot_csc_ndarray(a_shape, b_shape, a_data, a_indices, a_indptr, b)`; `A` holds columns -/
-def dotCscNd (aRows bRows bCols : Nat) (A : CSR) (b : Dense) : Dense :=
+def dotCscNd (aRows bRows bCols : Nat) (A : CSR) (b : DenseM) : DenseM :=
   (List.range bRows).foldl (fun out i =>
     (A.row i).foldl (fun out e =>
       out.set e.1 (axpy e.2 (fun j => dget b i j) 0 (out.getD e.1 []))) out)
@@ -231,7 +231,7 @@ def indptrOfRows (n : Nat) (rows : List Nat) : List Nat :=
 /-! ### `_csc_ndarray_count_nnz`, `_dot_csc_ndarray_sparse` -/
 
 /-- returns `(nnz, indptr[1:])`; `A` holds the columns of `a` -/
-def cscNdCountNnz (aRows bRows bCols : Nat) (A : CSR) (b : Dense) : Nat × List Nat :=
+def cscNdCountNnz (aRows bRows bCols : Nat) (A : CSR) (b : DenseM) : Nat × List Nat :=
   let st := (List.range bCols).foldl (fun (st : List Int × Nat × List Nat) i =>
     let r := (List.range bRows).foldl (fun (m : List Int × Nat) j =>
       (A.rowIdx j).foldl (fun (m : List Int × Nat) k =>
@@ -241,14 +241,14 @@ def cscNdCountNnz (aRows bRows bCols : Nat) (A : CSR) (b : Dense) : Nat × List 
   (st.2.1, st.2.2)
 
 /-- the scatter of output column `i`: `for j: u = b[j, i]; if u != 0: for k in col j of a: …` -/
-def cscTouches (bRows : Nat) (A : CSR) (b : Dense) (i : Nat) : List (Nat × Int) :=
+def cscTouches (bRows : Nat) (A : CSR) (b : DenseM) (i : Nat) : List (Nat × Int) :=
   (List.range bRows).flatMap fun j =>
     if dget b j i != 0 then (A.row j).map fun e => (e.1, dget b j i * e.2) else []
 
 /-- `_dot_csc_ndarray_sparse(a_shape, b_shape, a_data, a_indices, a_indptr, b)`: `mask` (the list
 links) and `sums` persist across output columns; entries are written only `if sums[head] != 0`,
 while `indptr` and the allocation come from the pattern-only pre-count. -/
-def dotCscNdSparse (aRows bRows bCols : Nat) (A : CSR) (b : Dense) : SparseOut :=
+def dotCscNdSparse (aRows bRows bCols : Nat) (A : CSR) (b : DenseM) : SparseOut :=
   let c := cscNdCountNnz aRows bRows bCols A b
   let st := (List.range bCols).foldl (fun (st : LL × List (Nat × Int)) i =>
     let s := LL.touchAll { st.1 with head := -2, len := 0 } (cscTouches bRows A b i)
@@ -270,18 +270,18 @@ def spanAcc (r : Nat) (w : Nat → Int) : List Ent → Int → Nat → Int × Na
   | e :: rest, acc, n => if e.1 = r then spanAcc r w rest (acc + e.2.2 * w e.2.1) (n + 1) else (acc, n)
 
 /-- write one element of a dense matrix -/
-def dset (o : Dense) (r c : Nat) (v : Int) : Dense := o.set r ((o.getD r []).set c v)
+def dset (o : DenseM) (r c : Nat) (v : Int) : DenseM := o.set r ((o.getD r []).set c v)
 
 /-- body of the outer `while` of `_dot_coo_ndarray`: the `for oidx2 in range(out_shape[1])` loop;
 returns the new `out` and the value of `didx1` after it (unchanged when the range is empty). -/
-def cooNdStep (nCols : Nat) (es : List Ent) (x2 : Dense) (didx1 : Nat) (out : Dense) : Dense × Nat :=
+def cooNdStep (nCols : Nat) (es : List Ent) (x2 : DenseM) (didx1 : Nat) (out : DenseM) : DenseM × Nat :=
   let oidx1 := ((es.drop didx1).headD (0, 0, 0)).1
-  (List.range nCols).foldl (fun (st : Dense × Nat) oidx2 =>
+  (List.range nCols).foldl (fun (st : DenseM × Nat) oidx2 =>
     let r := spanAcc oidx1 (fun c => dget x2 oidx2 c) (es.drop didx1) (dget st.1 oidx1 oidx2) 0
     (dset st.1 oidx1 oidx2 r.1, didx1 + r.2)) (out, didx1)
 
 /-- the outer `while didx1 < len(data1)` of `_dot_coo_ndarray`, with fuel -/
-def cooNdRun (nCols : Nat) (es : List Ent) (x2 : Dense) : Nat → Nat → Dense → Option Dense
+def cooNdRun (nCols : Nat) (es : List Ent) (x2 : DenseM) : Nat → Nat → DenseM → Option DenseM
   | 0, _, _ => none
   | fuel + 1, didx1, out =>
     if didx1 < es.length then
@@ -290,18 +290,18 @@ def cooNdRun (nCols : Nat) (es : List Ent) (x2 : Dense) : Nat → Nat → Dense 
     else some out
 
 /-- `_dot_coo_ndarray(coords1, data1, array2, out_shape)` -/
-def dotCooNd (nRows nCols : Nat) (es : List Ent) (x2 : Dense) (fuel : Nat) : Option Dense :=
+def dotCooNd (nRows nCols : Nat) (es : List Ent) (x2 : DenseM) (fuel : Nat) : Option DenseM :=
   cooNdRun nCols es x2 fuel 0 (List.replicate nRows (List.replicate nCols 0))
 
 /-- body of the outer `while` of `_dot_coo_ndarray_sparse`: the `while oidx2 < out_shape[1]` loop
 (a counted loop); returns the elements appended and `cur_didx1` after it. -/
-def cooNdSparseStep (nCols : Nat) (es : List Ent) (x2 : Dense) (didx1 : Nat) : List (Nat × Nat × Int) × Nat :=
+def cooNdSparseStep (nCols : Nat) (es : List Ent) (x2 : DenseM) (didx1 : Nat) : List (Nat × Nat × Int) × Nat :=
   let row := ((es.drop didx1).headD (0, 0, 0)).1
   (List.range nCols).foldl (fun (st : List (Nat × Nat × Int) × Nat) oidx2 =>
     let r := spanAcc row (fun c => dget x2 oidx2 c) (es.drop didx1) 0 0
     (if r.1 != 0 then st.1 ++ [(row, oidx2, r.1)] else st.1, didx1 + r.2)) ([], didx1)
 
-def cooNdSparseRun (nCols : Nat) (es : List Ent) (x2 : Dense) :
+def cooNdSparseRun (nCols : Nat) (es : List Ent) (x2 : DenseM) :
     Nat → Nat → List (Nat × Nat × Int) → Option (List (Nat × Nat × Int))
   | 0, _, _ => none
   | fuel + 1, didx1, out =>
@@ -311,19 +311,19 @@ def cooNdSparseRun (nCols : Nat) (es : List Ent) (x2 : Dense) :
     else some out
 
 /-- `_dot_coo_ndarray_sparse … (coords1, data1, array2, out_shape)`: the `(row, col, value)` appended -/
-def dotCooNdSparse (nCols : Nat) (es : List Ent) (x2 : Dense) (fuel : Nat) : Option (List (Nat × Nat × Int)) :=
+def dotCooNdSparse (nCols : Nat) (es : List Ent) (x2 : DenseM) (fuel : Nat) : Option (List (Nat × Nat × Int)) :=
   cooNdSparseRun nCols es x2 fuel 0 []
 
 /-! ### `_dot_ndarray_coo` and `_dot_ndarray_coo_sparse` -/
 
 /-- `_dot_ndarray_coo(array1, coords2, data2, out_shape)`; `es` = (coords2[0], coords2[1], data2) -/
-def dotNdCoo (nRows nCols : Nat) (x1 : Dense) (es : List Ent) : Dense :=
+def dotNdCoo (nRows nCols : Nat) (x1 : DenseM) (es : List Ent) : DenseM :=
   (List.range nRows).foldl (fun out oidx1 =>
     es.foldl (fun out e => dset out oidx1 e.2.1 (dget out oidx1 e.2.1 + dget x1 oidx1 e.1 * e.2.2)) out)
     (List.replicate nRows (List.replicate nCols 0))
 
 /-- `_dot_ndarray_coo_sparse`: `es` are the elements of `b.T` (so `e.1` is the output column, sorted) -/
-def dotNdCooSparse (nRows : Nat) (x1 : Dense) (es : List Ent) : List (Nat × Nat × Int) :=
+def dotNdCooSparse (nRows : Nat) (x1 : DenseM) (es : List Ent) : List (Nat × Nat × Int) :=
   (List.range nRows).flatMap fun oidx1 =>
     let st := es.foldl (fun (st : List (Nat × Nat × Int) × Int × Nat) e =>
       let st := if e.1 ≠ st.2.2 then
